@@ -32,10 +32,53 @@ pub fn profile_hazard(r: &mut Prng) -> GenCfg {
     c
 }
 
+/// A loop body that ends by setting its own counter to a value at or beyond the bound (incl.
+/// i64::MAX): which rows follow is not defined by C01, but C10 still applies - no panic, and the
+/// loop must come to an end. Run for the no-panic oracle only.
+fn counter_rebind_variant(case: &mut Case, r: &mut Prng) -> bool {
+    fn first_loop(items: &mut [Item]) -> Option<(&mut String, &mut Vec<Item>)> {
+        for it in items.iter_mut() {
+            match it {
+                Item::Loop(v, _, inner) => return Some((v, inner)),
+                Item::While(_, inner) => {
+                    if let Some(x) = first_loop(inner) {
+                        return Some(x);
+                    }
+                }
+                _ => {}
+            }
+        }
+        None
+    }
+    let Some((v, inner)) = first_loop(&mut case.program.items) else { return false };
+    let val = *r.pick(&[i64::MAX, i64::MAX - 1, 1 << 40, 5]);
+    inner.push(Item::Let(v.clone(), Expr::Num(val, Radix::Dec)));
+    true
+}
+
 pub fn c10(case_seed: u64, acc: &mut Acc) {
     let mut r = Prng::new(case_seed);
     let cfg = profile_hazard(&mut r);
     let mut case = gen::generate(&mut r, &cfg);
+    if r.chance(25, 1000) && !case.program.uses_random() && counter_rebind_variant(&mut case, &mut r) {
+        acc.cases += 1;
+        if !preflight_ok(&case, acc) {
+            return;
+        }
+        let pr = pp::print(&case.program, &case.layout_opts);
+        let real = run_text(&pr.text, &case.signals, &case.script, &RunOpts { max_steps: REAL_STEP_CAP, probe_after_end: 0, stop_at_error: true, seed: Some(case.rng_seed), continue_on: None });
+        count_events(acc, &real);
+        acc.tag("loop_counter_rebound_at_or_beyond_its_bound");
+        if let Some(f) = first_some(vec![no_panic(&real), accepted(&real)]) {
+            acc.violation(case_seed, "counter-rebind", f, case_json(&case, &pr));
+            return;
+        }
+        acc.held += 1;
+        let h = case_hash(&case, &pr);
+        acc.distinct.insert(h);
+        acc.nontrivial.insert(h);
+        return;
+    }
     if r.chance(250, 1000) {
         let n = 1 + r.below(12);
         case.script.faults.push((r.below(n), Fault::Error(r.next_u64() >> 1)));
@@ -143,7 +186,7 @@ pub fn c10_exhaustive(acc: &mut Acc) -> Value {
         let case = Case {
             program: Program { header: header.clone(), items },
             signals: sigs64.clone(),
-            script: Script { layout: vec![64], values: ValueFn::Unique { salt: k as u64, narrow: false }, faults: vec![], override_write: false },
+            script: Script { layout: vec![64], values: ValueFn::Unique { salt: k as u64, narrow: false }, faults: vec![], override_write: false, rebuild_signals: false },
             layout_opts: crate::pp::Layout::plain(),
             rng_seed: 3,
         };
